@@ -5,7 +5,7 @@
    interleaving of loop callbacks, I/O, timer, error and new-loop events, any fault oracle. *)
 From Coq Require Import List Bool Arith.
 From RecordUpdate Require Import RecordSet.
-From GW Require Import Proto ProtoEvolves ProtoProps ProtoMutex ProtoAnswer.
+From GW Require Import Proto ProtoEvolves ProtoProps ProtoMutex ProtoAnswer Coroutines CoroutineGen CoroutineRefine.
 Import ListNotations RecordSetNotations.
 
 (* at most one caller is between lock.acquire() and the release with an await in between (connecting, or awaiting its answer) *)
@@ -60,6 +60,18 @@ Theorem C06_second_caller_queues :
   Some (Some (PcAwait 0), Some (PcLockWait 0), true).
 Proof. exact second_caller_queues. Qed.
 
+(* the lock discipline of the model is the one of the current source (tools/co2v.py): the steps of the finally clause of send_request,
+   the release before the recursive retry (C04_except_clauses_are_the_model), and close() of a TCP object under the lock *)
+Theorem C06_finally_is_the_model : forall n s, sr_finally n s = g_sr_finally (sr_shape_of (s_kind s)) n s.
+Proof. exact sr_finally_refined. Qed.
+
+Theorem C06_retry_releases_the_lock_as_the_source_does : forall again s k d e,
+  sr_exception again s k d e = g_sr_exception again (sr_shape_of (s_kind s)) s k d e.
+Proof. exact sr_exception_refined. Qed.
+
+Theorem C06_close_takes_the_lock_as_the_source_does : forall s, (match s_kind s with TCP => true | UDP => false end) = cl_lock (cl_shape_of (s_kind s)).
+Proof. exact close_lock_refined. Qed.
+
 Print Assumptions C06_one_request_in_flight.
 Print Assumptions C06_transmit_only_when_nobody_else_waits.
 Print Assumptions C06_pending_future_is_the_awaited_one.
@@ -70,3 +82,6 @@ Print Assumptions C06_future_completes_once.
 Print Assumptions C06_delivered_data_was_accepted.
 Print Assumptions C06_two_callers_run.
 Print Assumptions C06_second_caller_queues.
+Print Assumptions C06_finally_is_the_model.
+Print Assumptions C06_retry_releases_the_lock_as_the_source_does.
+Print Assumptions C06_close_takes_the_lock_as_the_source_does.
